@@ -478,3 +478,35 @@ func c14Compose(c *core.Ctx) {
 		c.Check(ok, "notify always enqueues, with the handler's full flag", c.Pos(nf.Pos()), "", "AddRateLimited is conditional or does not carry h.full")
 	}
 }
+
+func init() {
+	doc := "Every watcher of a Gateway API kind (Gateway, GatewayClass, HTTPRoute, TCPRoute, all served versions) is a `full` handler: the gateway converter only runs on a full sync and its own NeedFullSync only sees resources already linked to the gateway pseudo-object, so an event on a new route or gateway reaches the configuration only through the handler's full flag."
+	for _, p := range []string{"C01", "C10", "C14"} {
+		addRule(p, &core.Rule{ID: p + ".gateway-events-full", Floor: 4, Run: gatewayEventsFull, Doc: doc})
+	}
+}
+
+func gatewayEventsFull(c *core.Ctx) {
+	m := handlerFullByResource(c)
+	if m == nil {
+		return
+	}
+	for _, r := range []string{"ResourceGateway", "ResourceGatewayClass", "ResourceHTTPRoute", "ResourceTCPRoute"} {
+		full, ok := m[r]
+		if !ok {
+			c.Violated("watcher of "+r+" forces a full sync", "", "no handler for this kind")
+			continue
+		}
+		c.Check(full, "watcher of "+r+" forces a full sync", "pkg/controller/reconciler/watchers.go", "every handler of the kind has full: true", "a handler of this kind is not `full`: a created/changed object of the kind never reaches the gateway converter (it runs only on full syncs and its NeedFullSync sees only already linked resources)")
+	}
+	// and the converter's side of the argument: Sync returns early unless full
+	if fn := c.Fn("converters/gateway", "converter.Sync"); fn != nil {
+		ok := false
+		for _, s := range core.Calls(fn, false) {
+			if strings.HasSuffix(core.CalleeName(s.Common()), "converter).syncHTTPRoutes") {
+				ok = guardedBy(s.Instr, func(k string) bool { return k == "full" }, true)
+			}
+		}
+		c.Check(ok, "the gateway converter converts only on a full sync", c.Pos(fn.Pos()), "", "syncHTTPRoutes is not on the `full` branch")
+	}
+}
